@@ -3198,6 +3198,10 @@ func (bc *Blockchain) IsTxStillRelevant(t *transaction.Transaction, txpool *memp
 	if t.ValidUntilBlock <= curheight {
 		return false
 	}
+	// MaxValidUntilBlockIncrement could have been lowered by the block.
+	if !isPartialTx && t.ValidUntilBlock > curheight+bc.GetMaxValidUntilBlockIncrement() {
+		return false
+	}
 	if txpool == nil {
 		if bc.dao.HasTransaction(t.Hash(), t.Signers, curheight, bc.GetMaxTraceableBlocks()) != nil {
 			return false
